@@ -149,6 +149,157 @@ pub fn build_probes(tys: &[Ty]) -> Result<Vec<Probe>, String> {
     Ok(out)
 }
 
+
+// ---------------------------------------------------------------------------------------
+// Decorated / aliased types (`expect` on an opaque type is a type error, so opaque types have
+// no decoder to compare).  Their Data encoding is chosen by decorators (`@tag`, `@list`), so the harness does not presume it: valid values come
+// from sample expressions written in Aiken and encoded by the compiled up-cast, and the
+// comparison is two-way - schema validation <=> compiled `expect` - over the Data universe
+// and the mutation ball of every sample.
+
+const DECORATED_DECLS: &str = r#"@list
+pub type Dino {
+  food: Int,
+  weight: Int,
+  name: ByteArray,
+}
+
+pub type Wow {
+  @tag(2)
+  Het { first: Dino, second: (Int, ByteArray) }
+  Toro(Int)
+  @tag(6908)
+  Far
+  Near
+}
+
+@tag(698)
+pub type Finally {
+  yes: Int,
+  no: ByteArray,
+}
+
+pub type Ints =
+  List<Int>
+
+pub type Holder {
+  ints: Ints,
+  w: Wow,
+}
+"#;
+
+/// (type annotation, sample expressions)
+fn decorated_types() -> Vec<(&'static str, Vec<&'static str>)> {
+    vec![
+        ("Dino", vec!["Dino(1, 2, #\"aa\")", "Dino { food: 0, weight: -1, name: #\"\" }"]),
+        ("Wow", vec!["Het(Dino(1, 2, #\"\"), (4, #\"00\"))", "Toro(7)", "Far", "Near"]),
+        ("Finally", vec!["Finally { yes: 1, no: #\"ff\" }"]),
+        ("Ints", vec!["[1, 2]", "[]"]),
+        ("Holder", vec!["Holder { ints: [3], w: Far }", "Holder { ints: [], w: Toro(1) }"]),
+        ("List<Dino>", vec!["[Dino(1, 2, #\"\")]", "[]"]),
+        ("Option<Wow>", vec!["Some(Near)", "None"]),
+    ]
+}
+
+fn decorated_family(run: &mut Run, universe: &[RData]) -> (u64, u64) {
+    let tys = decorated_types();
+    let mut src = String::from(DECORATED_DECLS);
+    for (k, (t, samples)) in tys.iter().enumerate() {
+        src.push_str(&format!("\npub fn ddec_{k}(d: Data) -> Bool {{\n  expect _v: {t} = d\n  True\n}}\n\npub fn dparam_{k}(v: {t}) -> Data {{\n  let d: Data = v\n  d\n}}\n"));
+        for (j, e) in samples.iter().enumerate() {
+            src.push_str(&format!("\npub fn dsample_{k}_{j}() -> Data {{\n  let v: {t} = {e}\n  let d: Data = v\n  d\n}}\n"));
+        }
+    }
+    let sc = Scratch::new("c12d", &[("lib/deco.ak".to_string(), src)]);
+    let p = (|| {
+        let (mut p, _) = sc.project()?;
+        p.check(true, None, false, false, 0, 1, Default::default(), silent(), false, None).map_err(|es| format!("decorated-types project does not compile: {}", crate::pj::show_errors(&es)))?;
+        Ok::<_, String>(p)
+    })();
+    let p = match p {
+        Ok(p) => p,
+        Err(e) => {
+            run.machinery_error(e);
+            return (0, 0);
+        }
+    };
+    let (mut pairs, mut evals) = (0u64, 0u64);
+    for (k, (t, samples)) in tys.iter().enumerate() {
+        let (dec, par) = match (p.export("deco", &format!("ddec_{k}"), silent()), p.export("deco", &format!("dparam_{k}"), silent())) {
+            (Ok(d), Ok(q)) => (d, q),
+            (a, b) => {
+                run.machinery_error(format!("export for decorated type {t} failed: {:?} {:?}", a.err().map(|e| e.to_string()), b.err().map(|e| e.to_string())));
+                continue;
+            }
+        };
+        let Some(param) = par.parameters.first().cloned() else { continue };
+        let defs = par.definitions.clone();
+        let decp = dec.program.inner().clone();
+        // sample encodings through the compiled up-cast
+        let mut cands: Vec<(String, RData)> = universe.iter().map(|d| ("universe".to_string(), d.clone())).collect();
+        let mut n_samples = 0;
+        for j in 0..samples.len() {
+            let Ok(sp) = p.export("deco", &format!("dsample_{k}_{j}"), silent()) else { continue };
+            let prog: Program<uplc::ast::NamedDeBruijn> = sp.program.inner().clone().into();
+            let r = guarded(move || prog.eval(uplc::machine::cost_model::ExBudget::max()).result);
+            evals += 1;
+            match r {
+                Ok(Ok(uplc::ast::Term::Constant(c))) => {
+                    if let Constant::Data(d) = c.as_ref() {
+                        let d = rterm::from_impl_data(d);
+                        n_samples += 1;
+                        cands.push(("sample".into(), d.clone()));
+                        for (kind, m) in datau::mutation_ball(&d) {
+                            cands.push((kind, m));
+                        }
+                    }
+                }
+                other => run.violation(Violation {
+                    signature: format!("sample-does-not-encode|{t}"),
+                    what: format!("the compiled up-cast of `{}` : {t} does not evaluate to Data: {:?}", samples[j], other.map(|x| x.map(|t| t.to_pretty()))),
+                    case: json!({"engine":"c12-decorated","type":t,"sample":samples[j]}),
+                }),
+            }
+        }
+        let (mut acc, mut rej) = (0u64, 0u64);
+        for (kind, d) in &cands {
+            pairs += 1;
+            let pd = rterm::to_impl_data(d);
+            let schema = guarded(|| param.validate(&defs, &Constant::Data(pd.clone())).is_ok());
+            let dec_ok = run1(&decp, d);
+            evals += 1;
+            let case = json!({"engine":"c12-decorated","type":t,"data":crate::datau_json(d),"kind":kind});
+            match (schema, &dec_ok) {
+                (Err(pn), _) => run.violation(Violation { signature: format!("schema-validation-panics|decorated:{t}|{}", vcore::evid::panic_site_file(&pn)), what: format!("validating {} against the schema of {t} panicked: {pn}", rterm::show_data(d)), case }),
+                (_, Err(e)) if e.starts_with("PANIC") => run.violation(Violation { signature: format!("decoder-panics|decorated:{t}"), what: format!("the compiled expect for {t} panicked on {}: {e}", rterm::show_data(d)), case }),
+                (Ok(s_ok), dres) => {
+                    let d_ok = dres.is_ok();
+                    if s_ok != d_ok {
+                        let who = if s_ok { "schema-accepts-what-the-validator-rejects" } else { "schema-rejects-what-the-validator-accepts" };
+                        run.violation(Violation {
+                            signature: format!("{who}|decorated:{t}|{}", kind.split(':').last().unwrap_or("")),
+                            what: format!("type {t}, Data {} ({kind}): schema validation {} it, the compiled `expect` {} it", rterm::show_data(d), if s_ok { "accepts" } else { "rejects" }, if d_ok { "accepts" } else { "rejects" }),
+                            case,
+                        });
+                    } else if s_ok {
+                        acc += 1;
+                    } else {
+                        rej += 1;
+                    }
+                }
+            }
+            // every sample itself must be accepted by both
+            if kind == "sample" && !(dec_ok.is_ok()) {
+                run.violation(Violation { signature: format!("valid-sample-rejected|decorated:{t}"), what: format!("the encoding {} of a valid {t} value is rejected by the compiled expect", rterm::show_data(d)), case: json!({"engine":"c12-decorated","type":t}) });
+            }
+        }
+        if n_samples == 0 || acc == 0 || rej == 0 {
+            run.machinery_error(format!("vacuous for decorated type {t}: samples {n_samples}, accepted {acc}, rejected {rej}"));
+        }
+    }
+    (pairs, evals)
+}
+
 fn run1(p: &Program<DeBruijn>, d: &RData) -> Result<uplc::ast::Term<uplc::ast::NamedDeBruijn>, String> {
     let prog = p.clone().apply_data(rterm::to_impl_data(d));
     match guarded(move || {
@@ -293,6 +444,11 @@ pub fn run(tier: Tier, replay: Option<String>) -> i32 {
             }
         }
     }
+    let (dpairs, devals) = decorated_family(&mut run, &universe);
+    pairs += dpairs;
+    evals += devals;
+    run.set("decorated_alias_types", decorated_types().len() as u64);
+    run.set("decorated_type_data_pairs", dpairs);
     run.set("types", probes.len() as u64);
     run.set("data_universe", universe.len() as u64);
     run.set("per_type", json!(per_type));
